@@ -165,7 +165,7 @@ def gen_node(rnd, specs, t, depth=3):
             'boolfix': lambda: S(rnd.choice(['true', 'false']), 'bool'),
             'none': lambda: S(rnd.choice(['', '~', 'null']), 'null'),
             'date': lambda: S(rnd.choice(['2001-12-14', '2001-12-14 21:59:43.10 -5', '2002-1-1']), 'timestamp'),
-            'path': lambda: S(rnd.choice(['/tmp/x', 'rel/p.txt', '.'])),
+            'path': lambda: S(rnd.choice(['/tmp/x', 'rel/p.txt', '.', '~/notes.txt', '~', '../up'])),
         }[t]()
     k = t[0]
     if k == 'list':
@@ -585,6 +585,19 @@ def keyclass_cases(rnd):
 def transform_cases(rnd):
     """Savorize hooks calling the structural transforms on attributes whose items have key attributes of every kind: the
     transforms must refuse (SeasoningError -> RecognitionError) or leave alone, never let another exception out."""
+    # a mapping keyed by name whose items get their key as an attribute of a class-typed kind (string-like, Enum): the key of the
+    # outer mapping and the new attribute must be independent nodes.  Valid by construction.
+    col = {'name': 'Col', 'kind': 'enum', 'members': ['red', 'green'], 'bases': [], 'registered': True}
+    idt = {'name': 'Ident', 'kind': 'str', 'bases': [], 'strbase': 'yatiml.String', 'registered': True}
+    for kt in (('class', 'Ident'), ('class', 'Col'), 'str'):
+        item = {'name': 'Item', 'kind': 'obj', 'bases': [], 'extra': False, 'registered': True,
+                'params': [{'name': 'name', 'type': kt, 'required': True}, {'name': 'v', 'type': 'int', 'required': True}]}
+        hold = {'name': 'Hold', 'kind': 'obj', 'bases': [], 'extra': False, 'registered': True,
+                'params': [{'name': 'items', 'type': ('dict', 3, 'str', ('class', 'Item')), 'required': True}],
+                'recognize': [('mapping',)], 'savorize': [('op', ('map2idx', 'items', 'name', 'v'))]}
+        specs = [col, idt, item, hold]
+        yield specs, ('class', 'Hold'), M([(S('items'), M([(S('red'), M([(S('v'), S('1', 'int'))])), (S('green'), S('2', 'int'))]))]), 'valid-by-construction:index'
+        yield specs, ('list', 0, ('class', 'Hold')), Q([M([(S('items'), M([(S('red'), S('3', 'int'))]))])]), 'valid-by-construction:index'
     keys = [S('k'), S('7', 'int'), S('2001-01-01', 'timestamp'), S('x', '!Item'), S('abc', 'int'), S('', 'float'), S('~', 'null'),
             Q([S('1', 'int')]), M([(S('a'), S('1', 'int'))]), S('true', 'bool')]
     for op in (('seq2map', 'items', 'id', None, True), ('seq2map', 'items', 'id', 'v', False), ('idx2map', 'items', 'id', 'v'),
